@@ -424,8 +424,223 @@ end NirVerif.Generated
 """
     return {"Whitelist.lean": txt}
 
+# ---------------------------------------------------------------------------------------
+# T6 / T7  paper kernels: straight-line float code -> Lean, in an ℝ and a Float back-end
+# ---------------------------------------------------------------------------------------
+class Kernel:
+    """Translate a method body made of assignments to names / state attributes, if/else with
+    returns, into a Lean expression over an abstract number type."""
 
-ITEMS = {"T1": t1_fields, "T2": t2_whitelist, "T4": t4_conv_axis, "T5": t5_flatten}
+    def __init__(self, item, attrs, state, inf_ok=False):
+        self.item = item
+        self.attrs = dict(attrs)       # dotted attribute chain -> lean name (read-only parameters)
+        self.state = dict(state)       # dotted attribute chain -> lean name (mutable state)
+        self.inf_ok = inf_ok
+
+    def refuse(self, node, why):
+        raise Refusal(self.item, f"{why} at line {getattr(node, 'lineno', '?')}: {ast.dump(node)[:100]}")
+
+    def dotted(self, n):
+        parts = []
+        while isinstance(n, ast.Attribute):
+            parts.append(n.attr)
+            n = n.value
+        if isinstance(n, ast.Name):
+            parts.append(n.id)
+            return ".".join(reversed(parts))
+        return None
+
+    def e(self, n, env):
+        if isinstance(n, ast.Constant) and isinstance(n.value, (int, float)) and not isinstance(n.value, bool):
+            v = n.value
+            if float(v) != int(v):
+                self.refuse(n, "non-integral literal")
+            iv = int(v)
+            return f"({iv})" if iv < 0 else str(iv)
+        if isinstance(n, ast.Name):
+            if n.id in env:
+                return env[n.id]
+            self.refuse(n, f"unknown name {n.id}")
+        if isinstance(n, ast.Attribute):
+            d = self.dotted(n)
+            # aliases such as `p = self.params`
+            for alias, target in list(env.items()):
+                if d and d.startswith(alias + ".") and target.startswith("@"):
+                    d = target[1:] + d[len(alias):]
+            if d in self.state:
+                return env.get("$" + d, self.state[d])
+            if d in self.attrs:
+                return self.attrs[d]
+            self.refuse(n, f"unknown attribute {d}")
+        if isinstance(n, ast.UnaryOp) and isinstance(n.op, ast.USub):
+            return f"(-{self.e(n.operand, env)})"
+        if isinstance(n, ast.BinOp):
+            ops = {ast.Add: "+", ast.Sub: "-", ast.Mult: "*", ast.Div: "/"}
+            if type(n.op) in ops:
+                return f"({self.e(n.left, env)} {ops[type(n.op)]} {self.e(n.right, env)})"
+            self.refuse(n, "operator")
+        if isinstance(n, ast.Call):
+            d = self.dotted(n.func)
+            if d in ("math.exp", "np.exp") and len(n.args) == 1:
+                return f"(EXP {self.e(n.args[0], env)})"
+            if d in ("math.log", "np.log") and len(n.args) == 1:
+                return f"(LOG {self.e(n.args[0], env)})"
+            if d and d.endswith(".copy") and not n.args:
+                return self.e(n.func.value, env)
+            self.refuse(n, f"call {d}")
+        if isinstance(n, ast.Compare) and len(n.ops) == 1:
+            ops = {ast.Gt: ">", ast.GtE: "≥", ast.Lt: "<", ast.LtE: "≤", ast.Eq: "="}
+            if type(n.ops[0]) in ops:
+                return f"(BOOL ({self.e(n.left, env)} {ops[type(n.ops[0])]} {self.e(n.comparators[0], env)}))"
+        self.refuse(n, "expression")
+
+    def cond(self, n, env):
+        if isinstance(n, ast.Compare) and len(n.ops) == 1:
+            ops = {ast.Gt: ">", ast.GtE: "≥", ast.Lt: "<", ast.LtE: "≤", ast.Eq: "=", ast.NotEq: "≠"}
+            if type(n.ops[0]) in ops:
+                return f"{self.e(n.left, env)} {ops[type(n.ops[0])]} {self.e(n.comparators[0], env)}"
+        self.refuse(n, "condition")
+
+    def is_inf(self, n):
+        return self.dotted(n) in ("math.inf", "np.inf")
+
+    def block(self, stmts, env, result):
+        """result: function env -> lean text for falling off the end"""
+        stmts = [s for s in stmts if not (isinstance(s, ast.Expr) and isinstance(s.value, ast.Constant))]
+        if not stmts:
+            return result(env)
+        st, rest = stmts[0], stmts[1:]
+        if isinstance(st, ast.Assign) and len(st.targets) == 1:
+            tgt = st.targets[0]
+            if isinstance(tgt, ast.Name):
+                d = self.dotted(st.value)
+                if d is not None and d not in self.state and d not in self.attrs and not any(
+                        d.startswith(a + ".") for a in env):
+                    env2 = dict(env); env2[tgt.id] = "@" + d         # alias (p = self.params)
+                    return self.block(rest, env2, result)
+                env2 = dict(env); env2[tgt.id] = tgt.id
+                return f"let {tgt.id} := {self.e(st.value, env)}\n  " + self.block(rest, env2, result)
+            d = self.dotted(tgt)
+            if d in self.state:
+                name = self.state[d] + "'"
+                while name in env.values():
+                    name += "'"
+                env2 = dict(env); env2["$" + d] = name
+                return f"let {name} := {self.e(st.value, env)}\n  " + self.block(rest, env2, result)
+            self.refuse(st, "assignment target")
+        if isinstance(st, ast.AugAssign) and isinstance(st.op, ast.Sub):
+            d = self.dotted(st.target)
+            if d in self.state:
+                cur = env.get("$" + d, self.state[d])
+                name = self.state[d] + "'"
+                while name in env.values():
+                    name += "'"
+                env2 = dict(env); env2["$" + d] = name
+                return f"let {name} := ({cur} - {self.e(st.value, env)})\n  " + self.block(rest, env2, result)
+            self.refuse(st, "augmented assignment target")
+        if isinstance(st, ast.Return):
+            if rest:
+                self.refuse(st, "code after return")
+            return self.ret(st.value, env)
+        if isinstance(st, ast.If):
+            if rest and not st.orelse:
+                # `if c: return X` followed by more code
+                return f"if {self.cond(st.test, env)} then {self.block(st.body, env, result)}\n  else " + \
+                    self.block(rest, env, result)
+            if rest:
+                self.refuse(st, "code after if/else")
+            return f"if {self.cond(st.test, env)} then {self.block(st.body, env, result)}\n  else " + \
+                self.block(st.orelse, env, result)
+        self.refuse(st, "statement")
+
+    def ret(self, v, env):
+        if self.inf_ok:
+            if self.is_inf(v):
+                return "none"
+            return f"some {self.e(v, env)}"
+        if isinstance(v, ast.Tuple):
+            return "(" + ", ".join(self.e(x, env) for x in v.elts) + ")"
+        return self.e(v, env)
+
+
+def _backend(txt, real):
+    if real:
+        return (txt.replace("EXP", "Real.exp").replace("LOG", "Real.log").replace("NUM", "ℝ")
+                .replace("BOOL", "boolToNum"))
+    return (txt.replace("EXP", "Float.exp").replace("LOG", "Float.log").replace("NUM", "Float")
+            .replace("BOOL", "boolToNum").replace(" = 0 then", " == 0 then"))
+
+
+def t6_lif():
+    item = "T6"
+    tree = ast.parse(_src("paper/01_lif/lif_exact_sim.py"))
+    params = {"self.params.tau": "tau", "self.params.r": "r", "self.params.v_leak": "v_leak",
+              "self.params.v_threshold": "v_threshold"}
+    state = {"self.state.v": "v"}
+    out = {}
+    fn = _find_func(tree, "advance_by_delta_t", "ExactLIFNeuron")
+    if fn is None or [a.arg for a in fn.args.args] != ["self", "i_input", "delta_t"]:
+        raise Refusal(item, "advance_by_delta_t signature")
+    K = Kernel(item, params, state)
+    adv = K.block(fn.body, {"i_input": "i_input", "delta_t": "delta_t"}, lambda env: env.get("$self.state.v", "v"))
+    fn = _find_func(tree, "calc_next_spike_time", "ExactLIFNeuron")
+    if fn is None or [a.arg for a in fn.args.args] != ["self", "i_input"]:
+        raise Refusal(item, "calc_next_spike_time signature")
+    K2 = Kernel(item, params, state, inf_ok=True)
+    nxt = K2.block(fn.body, {"i_input": "i_input"}, lambda env: (_ for _ in ()).throw(Refusal(item, "falls off the end")))
+    fn = _find_func(tree, "apply_reset", "ExactLIFNeuron")
+    if fn is None:
+        raise Refusal(item, "apply_reset not found")
+    rst = Kernel(item, params, state).block(fn.body, {}, lambda env: env.get("$self.state.v", "v"))
+    body = f"""
+/-- `ExactLIFNeuron.advance_by_delta_t`: the new membrane voltage. -/
+DEF advance (tau r v_leak v_threshold : NUM) (v i_input delta_t : NUM) : NUM :=
+  {adv}
+
+/-- `ExactLIFNeuron.calc_next_spike_time`: `none` stands for `math.inf`. -/
+DEF nextSpikeTime (tau r v_leak v_threshold : NUM) (v i_input : NUM) : Option NUM :=
+  {nxt}
+
+/-- `ExactLIFNeuron.apply_reset` -/
+DEF applyReset (tau r v_leak v_threshold : NUM) (v : NUM) : NUM :=
+  {rst}
+"""
+    real = HEADER + "import Mathlib.Analysis.SpecialFunctions.Log.Basic\n\nnamespace NirVerif.Generated.LifReal\nopen Classical\n" + \
+        _backend(body, True).replace("DEF", "noncomputable def") + "\nend NirVerif.Generated.LifReal\n"
+    flt = HEADER + "\nnamespace NirVerif.Generated.LifFloat\n" + _backend(body, False).replace("DEF", "def") + \
+        "\nend NirVerif.Generated.LifFloat\n"
+    return {"LifExactReal.lean": real, "LifExactFloat.lean": flt}
+
+
+def t7_cuba():
+    item = "T7"
+    tree = ast.parse(_src("paper/03_rnn/extras/debug_CubaLIF/nir_reference_impl.py"))
+    fn = _find_func(tree, "forward", "CubaLIFImplementation")
+    if fn is None or [a.arg for a in fn.args.args] != ["self", "x"]:
+        raise Refusal(item, "forward signature")
+    attrs = {"self.dt": "dt"}
+    for f in ("tau_syn", "tau_mem", "r", "v_leak", "v_threshold", "w_in"):
+        attrs["self.node." + f] = f
+    state = {"self.I": "I", "self.v": "v"}
+    K = Kernel(item, attrs, state)
+    body = K.block(fn.body, {"x": "x"}, lambda env: (_ for _ in ()).throw(Refusal(item, "no return")))
+    txt = f"""
+/-- numeric value of a comparison result (`z * v_threshold` multiplies by a boolean) -/
+DEF boolToNum (p : Prop) [Decidable p] : NUM := if p then 1 else 0
+
+/-- `CubaLIFImplementation.forward`, element-wise: returns `(z, v, I)`. -/
+DEF cubaForward (dt tau_syn tau_mem r v_leak v_threshold w_in : NUM) (I v x : NUM) : NUM × NUM × NUM :=
+  {body}
+"""
+    real = HEADER + "import Mathlib.Analysis.SpecialFunctions.Log.Basic\n\nnamespace NirVerif.Generated.CubaReal\nopen Classical\n" + \
+        _backend(txt, True).replace("DEF", "noncomputable def") + "\nend NirVerif.Generated.CubaReal\n"
+    flt = HEADER + "\nnamespace NirVerif.Generated.CubaFloat\n" + _backend(txt, False).replace("DEF", "def") + \
+        "\nend NirVerif.Generated.CubaFloat\n"
+    return {"CubaRefReal.lean": real, "CubaRefFloat.lean": flt}
+
+
+
+ITEMS = {"T1": t1_fields, "T2": t2_whitelist, "T4": t4_conv_axis, "T5": t5_flatten, "T6": t6_lif, "T7": t7_cuba}
 
 
 def regenerate(out_dir=OUT, items=None):
@@ -444,6 +659,12 @@ def regenerate(out_dir=OUT, items=None):
             refusals.append((name, f"syntax error in source: {r}"))
             continue
         for fname, txt in files.items():
+            lines = txt.split("\n")
+            for i, l in enumerate(lines):
+                if l.startswith("namespace "):
+                    lines.insert(i, "set_option linter.unusedVariables false")
+                    break
+            txt = "\n".join(lines)
             path = os.path.join(out_dir, fname)
             old = None
             if os.path.exists(path):
